@@ -255,7 +255,10 @@ pub fn build<Data: GarnishData>(parse_root: usize, parse_tree: Vec<ParseNode>, d
 
         for end_instruction in end_instructions {
             match last_instruction.clone().and_then(|i| data.get_instruction(i)) {
-                Some(instruction) if instruction == end_instruction => {}
+                // only a terminator that is already there can be left out: the boolean conversion that ends the
+                // right operand of `&&` / `||` must always run, because arms of a conditional inside that
+                // operand re-join after the operand's own last instruction
+                Some(instruction) if instruction == end_instruction && end_instruction.0 != Instruction::Tis => {}
                 _ => {
                     data.push_instruction(end_instruction.0, end_instruction.1)?;
                     instruction_metadata.push(InstructionMetadata::new(None));
